@@ -483,11 +483,6 @@ def oracle(case, stats=None):
     elif op == "unary":
         A, Am = to_cvx(case["A"]), to_model(case["A"])
         f = case["f"]
-        if f == "imag" and Am.tc == "i":
-            # matrices.rst promises a zero matrix, the code refuses: recorded as unspecified (DESIGN appendix A)
-            if stats is not None:
-                stats.evaluated(case, False, labels + ["unspecified:imag_of_integer"])
-            return
         mf = {"neg": lambda: rd.neg(Am), "pos": lambda: Am.copy(), "abs": lambda: rd.mabs(Am),
               "T": lambda: rd.transpose(Am), "trans": lambda: rd.transpose(Am), "H": lambda: rd.transpose(Am, True),
               "ctrans": lambda: rd.transpose(Am, True), "real": lambda: rd.real(Am), "imag": lambda: rd.imag(Am)}[f]
